@@ -361,7 +361,7 @@ func runC01(ctx *harness.Ctx) {
 			}
 		}
 	})
-	ctx.Rapid("generated", ctx.Pick(8000, 250000), func(t *rapid.T) {
+	ctx.Rapid("generated", ctx.Pick(8000, 90000), func(t *rapid.T) {
 		c := drawGen(t, "", drawDepth(t))
 		tagHistogram(ctx, c.S.Tags)
 		ctx.Sample(map[string]any{"leg": "generated", "kind": c.S.Kind, "input": q(trunc(c.Text, 300))})
@@ -369,13 +369,13 @@ func runC01(ctx *harness.Ctx) {
 		e := es[rapid.IntRange(0, len(es)-1).Draw(t, "entry")]
 		c01One(ctx, t, "generated", e, c.Text)
 	})
-	ctx.Rapid("generated-relaxed", ctx.Pick(6000, 120000), func(t *rapid.T) {
+	ctx.Rapid("generated-relaxed", ctx.Pick(6000, 50000), func(t *rapid.T) {
 		c := drawGenRelaxed(t, "", drawDepth(t))
 		es := entriesForKind(c.S.Kind)
 		e := es[rapid.IntRange(0, len(es)-1).Draw(t, "entry")]
 		c01One(ctx, t, "generated-relaxed", e, c.Text)
 	})
-	ctx.Rapid("quoted-pseudo-keyword", ctx.Pick(4000, 60000), func(t *rapid.T) {
+	ctx.Rapid("quoted-pseudo-keyword", ctx.Pick(4000, 30000), func(t *rapid.T) {
 		c, ok := drawGenQuotedPKW(t, "", rapid.SampledFrom([]int{1, 2, 2}).Draw(t, "depth"))
 		if !ok {
 			return
@@ -390,7 +390,7 @@ func runC01(ctx *harness.Ctx) {
 		pkwNames = append(pkwNames, w)
 	}
 	sort.Strings(pkwNames)
-	ctx.Rapid("pseudo-keyword-sweep", ctx.Pick(15, 1200), func(t *rapid.T) {
+	ctx.Rapid("pseudo-keyword-sweep", ctx.Pick(15, 250), func(t *rapid.T) {
 		c := drawGen(t, "", rapid.SampledFrom([]int{1, 2, 2, 3}).Draw(t, "depth"))
 		var idx []int
 		for i, p := range c.Pieces {
@@ -452,7 +452,7 @@ func runC01(ctx *harness.Ctx) {
 		es := entriesForKind(kind)
 		c01One(ctx, t, "clause-permutations", es[rapid.IntRange(0, len(es)-1).Draw(t, "entry")], src)
 	})
-	ctx.Rapid("mutant", ctx.Pick(8000, 250000), func(t *rapid.T) {
+	ctx.Rapid("mutant", ctx.Pick(8000, 90000), func(t *rapid.T) {
 		s := drawValid(t)
 		src := mutate.Tokens(t, s.Src, 2)
 		es := entriesForKind(s.Kind)
@@ -699,7 +699,7 @@ func oracleC02(ctx *harness.Ctx, cs *harness.Case) (ds []harness.Discrepancy) {
 
 func runC02(ctx *harness.Ctx) {
 	useAvoid(ctx)
-	ctx.Rapid("generated", ctx.Pick(15000, 300000), func(t *rapid.T) {
+	ctx.Rapid("generated", ctx.Pick(15000, 110000), func(t *rapid.T) {
 		var c GenCase
 		if rapid.IntRange(0, 29).Draw(t, "long") == 0 {
 			c = drawGenLong(t, "", 2)
